@@ -66,8 +66,20 @@ def leaf_scripts(r, n):
 
 
 def leaf_coq(scripts):
-    def op(o):
-        return f"LCreate {KINDS[o[1]]}" if o[0] == "C" else (f"LUse {o[1]}" if o[0] == "U" else f"LReassign {o[1]}")
+    def render(s):
+        kinds, out = [], []          # kinds[i] = kind of allocation i (R allocates a temporary of the value's kind)
+        for o in s:
+            if o[0] == "C":
+                kinds.append(o[1])
+                out.append(f"LCreate {KINDS[o[1]]}")
+            elif o[0] == "U":
+                out.append(f"LUse {o[1]}")
+            else:
+                k = kinds[o[1]] if o[1] < len(kinds) else "i"
+                if o[1] < len(kinds):
+                    kinds.append(k)
+                out.append(f"LReassign {o[1]} {KINDS[k]}")
+        return "; ".join(out)
     L = ["From Coq Require Import List Bool Arith.", "From V.C22 Require Import GenTracing ModelTracing.",
          "Import ListNotations.",
          "Definition enc (n : nat) (r : res st) : list (list nat) := match r with",
@@ -75,7 +87,7 @@ def leaf_coq(scripts):
          "            match end_check s with Err (ELeak i) => [1; i] | Ok _ => [0] | _ => [9] end]",
          " | Err (EAlreadyUsed i) => [[1]; [i]] | Err (ENoObj i) => [[2]; [i]] | Err (EKeyError i) => [[3]; [i]] | Err _ => [[9]] end.",
          "Definition cases : list (list (list nat)) := ["]
-    L.append(";\n".join(f"enc 0 (lrun [{'; '.join(op(o) for o in s)}] st0)" for s in scripts) + "].")
+    L.append(";\n".join(f"enc 0 (lrun [{render(s)}] st0)" for s in scripts) + "].")
     L.append("Eval vm_compute in cases.")
     return "\n".join(L)
 
